@@ -130,7 +130,7 @@ def run_case(rec, case):
         rec.violation(mech, text, full, observed=data)
 
 
-def run_shard(rec, shard, nshards):
+def _run_shard_workload(rec, shard, nshards):
     common.loop(rec, shard, nshards, N[rec.tier], CAP[rec.tier], lambda n: run_case(rec, make_case(rec.seed, n)))
 
 
@@ -197,3 +197,14 @@ def canaries(rec):
     out.append(("F7b plus another difference is a violation",
                 any(m == "wire-format-mismatch" for m, _ in oracle(w, bytes(broken)))))
     return out
+
+
+FAULT_PLANE_OPS = ('create', 'create-object-twice')
+
+
+def run_shard(rec, shard, nshards):
+    _run_shard_workload(rec, shard, nshards)
+    if shard == 5 % nshards:
+        # complete enumeration of the single file-boundary faults of this property's operations (faultplane.py)
+        from . import faultplane
+        faultplane.run(rec, ID, FAULT_PLANE_OPS)
